@@ -3,6 +3,7 @@ mod par;
 mod report;
 mod tree;
 mod valmc;
+mod conv;
 mod optab;
 mod subject;
 
@@ -38,7 +39,9 @@ fn main() {
     par::install_panic_hook();
     let thorough = tier == "thorough";
     let code = par::with_big_stack(move || match id.as_str() {
+        "C07" => conv::c07(thorough, replay),
         "C08" => valmc::c08(thorough, replay),
+        "C09" => conv::c09(thorough, replay),
         "C20" => valmc::c20(thorough, replay),
         _ => {
             eprintln!("no engine for {}", id);
